@@ -286,7 +286,7 @@ end Old
 `if end { confirm; level -= 1 } else if is_container { level += 1 }`.
 `level` is an **`i32`** in the Rust (read.rs: `let mut level = 1; while level > 0 { … }`), so the
 increment is a checked `i32` addition: the overflow-checks build panics when `level` would pass
-`i32::MAX = 2^31 − 1` (`levelStep_overflow_reachable` in Props/C16), the release build wraps to a
+`i32::MAX = 2^31 − 1` (`Tlv.levelStep_overflow`; whole run: `C16.level_overflow_reachable` in Props/C16), the release build wraps to a
 negative value and leaves the loop.  The no-panic theorems therefore carry the hypothesis
 `len < 2^31`: every container start costs at least one byte, so the counter stays below `2^31`. -/
 def levelStep (c : Control) (level : Nat) : Res Nat :=
